@@ -52,9 +52,9 @@ pub mod c12 {
     slit_h!(q_slit_n2_k2, 2, 4, 2);
     slit_h!(q_slit_n3_k1, 3, 9, 1);
     slit_h!(q_slit_n3_k2, 3, 9, 2);
-    slit_h!(t_slit_n3_k3, 3, 9, 3);
     slit_h!(t_slit_n4_k2, 4, 16, 2);
-    slit_h!(t_slit_n4_k3, 4, 16, 3);
+    // three symbolic assignments at n >= 3 (t_slit_n3_k3, t_slit_n4_k3) were tried in the thorough
+    // tier and removed: neither back end returned a verdict within 2400 s (cadical) / 4800 s (z3).
     slit_h!(q_slit_n0, 0, 0, 0);
 
     /// HMAT latency/bandwidth structure with ni x nt cells, k assignments with symbolic (i, j, value)
